@@ -37,13 +37,16 @@ def _direct(ctx, current, mon):
     import cij.core.phonon_contribution.nonshear as ns
     ncases = ctx.pick(60, 15000)
     prev = None
-    for i in range(ncases):
+    for i in list(range(ncases)) + [10 ** 6 + 5 * j_ + 2 for j_ in range(ctx.pick(2, 6))]:
         case_id = f"case{i}"
         if not ctx.mine(i, case_id):
             continue
         current["id"] = case_id
-        reuse = prev if (prev is not None and (i // ctx.nshards) % 3 == 1) else None      # new spectrum on the grid of the case before
-        rng, hostile, spec, t, v, strains, fill, calc = gen_case(ctx, i, reuse=reuse)
+        big = i >= 10 ** 6
+        reuse = prev if (prev is not None and (i // ctx.nshards) % 3 == 1 and not big) else None      # new spectrum on the grid of the case before
+        rng, hostile, spec, t, v, strains, fill, calc = gen_case(ctx, i, reuse=reuse, big=big)
+        if big:
+            hostile = "large-grid"
         if reuse is not None:
             hostile = (hostile or "generic") + "+grid-of-previous-case"
         prev = (spec.v0, t, v, spec.weights, strains, spec.nq, spec.natoms)
